@@ -73,3 +73,73 @@ func TestVerif_C20_CmpHuge(t *testing.T) {
 	}
 	rec.Sample("huge", map[string]interface{}{"lengths": "2^31+3, 2^32, 2^32+16", "positions": "none (equal), 17, l/2, l-1"})
 }
+
+// Operands of 16..256 MiB made of constant fills and periodic patterns: sums, counters and flags accumulated over the whole length
+// (rather than per byte) wrap exactly for such inputs — e.g. a digit sum of 2^32 needs 2^24 bytes that differ by 0x100/…; random
+// contents never produce an exact multiple. The oracle is bytes.Compare.
+func TestVerif_C20_CmpLargeFills(t *testing.T) {
+	rec := stats.Get("C20", "cmp-large-fills")
+	rec.Rule("complete list: l in {2^24, 2^24+2^16+2 (= (2^32-1)/255 + 1), 2^25, 2^26 [, 2^28 thorough]} x (fill of a, fill of b) from {00,01,41,7f,80,c1,fe,ff}^2 with a != b, plus equal fills with one differing byte at position 0, l/2 or l-1 in either direction. Oracle: bytes.Compare. Every case non-trivial (an accumulator over 2^24+ bytes); distinct by (l, fills, position).")
+	rec.Exhaustive(true)
+	t.Cleanup(stats.FlushAll)
+	lens := []int{1 << 24, 1<<24 + 1<<16 + 2, 1 << 25, 1 << 26}
+	if vt.Thorough() {
+		lens = append(lens, 1<<28)
+	}
+	max := lens[len(lens)-1]
+	a, b := make([]byte, max), make([]byte, max)
+	fills := []byte{0x00, 0x01, 0x41, 0x7f, 0x80, 0xc1, 0xfe, 0xff}
+	si, sn := vt.Shard()
+	job := 0
+	check := func(l int, what string) {
+		want := 0
+		for i := 0; i < l; i++ { // a plain loop, not bytes.Compare on fills of the same value (which is memcmp anyway)
+			if a[i] != b[i] {
+				if a[i] > b[i] {
+					want = 1
+				} else {
+					want = -1
+				}
+				break
+			}
+		}
+		var got int
+		if p := vt.Catch(func() { got = ConstantTimeCmp(a[:l], b[:l], l) }); p != nil {
+			vt.Fail(t, rec, "C20:cmp:panic", "ConstantTimeCmp panicked on %d-byte operands (%s): %v", l, what, p)
+			return
+		}
+		rec.Enumerated(1, fmt.Sprintf("l:%d", l))
+		if got != want {
+			vt.Fail(t, rec, "C20:cmp:large", "ConstantTimeCmp over l=%d bytes (%s): got %d, want %d", l, what, got, want)
+		}
+	}
+	for _, l := range lens {
+		for _, fa := range fills {
+			for _, fb := range fills {
+				job++
+				if job%sn != si {
+					continue
+				}
+				for i := 0; i < l; i++ {
+					a[i], b[i] = fa, fb
+				}
+				if fa != fb {
+					check(l, fmt.Sprintf("a all %02x, b all %02x", fa, fb))
+					continue
+				}
+				for _, pos := range []int{0, l / 2, l - 1} {
+					a[pos] ^= 0x10
+					check(l, fmt.Sprintf("all %02x, a differs at %d", fa, pos))
+					a[pos] ^= 0x10
+					b[pos] ^= 0x01
+					check(l, fmt.Sprintf("all %02x, b differs at %d", fa, pos))
+					b[pos] ^= 0x01
+				}
+				if t.Failed() {
+					return
+				}
+			}
+		}
+	}
+	rec.Sample("large-fills", map[string]interface{}{"lengths": fmt.Sprint(lens), "fills": fmt.Sprintf("%x", fills)})
+}
